@@ -202,3 +202,43 @@ func init() {
 		Old: "\tif isel, recvOK, tryOK = trySelectDir(ops, false, true, sendChans); tryOK {\n\t\treturn\n\t}\n\treturn trySelectDir(ops, true, true, nil)",
 		New: "\tif isel, recvOK, tryOK = trySelectDir(ops, false, true, nil); tryOK {\n\t\treturn\n\t}\n\treturn trySelectDir(ops, true, true, sendChans)", Expect: "R10.9 runtime.trySelect accepting receive probe"})
 }
+
+// checkSelectNotifyOrder (R10.10): the sleeper re-tests `sem` under the mutex and then waits on the condition
+// variable; the waker must set `sem` before it signals, otherwise a waker that runs between the test and the
+// wait signals nobody and the flag it sets afterwards is not seen until another wake-up arrives.
+func checkSelectNotifyOrder(c *Ctx, rp *packages.Package) {
+	c.Rule("R10.10", "selectOp.notify publishes the wake-up flag before it signals the condition variable", 1)
+	fd := findFunc(rp, "selectOp.notify")
+	if fd == nil {
+		c.Undecided("R10.10", "runtime.selectOp.notify", 0, "function not found")
+		return
+	}
+	c.nfuncs++
+	info := rp.TypesInfo
+	g := buildCFG(rp, fd)
+	isSet := func(n ast.Node) bool {
+		as, ok := n.(*ast.AssignStmt)
+		if !ok || len(as.Lhs) != 1 || !strings.HasSuffix(exprStr(as.Lhs[0]), ".sem") {
+			return false
+		}
+		bv, isC := constBool(info, as.Rhs[0])
+		return isC && bv
+	}
+	isWake := func(n ast.Node) bool {
+		return nodeHas(n, func(x ast.Node) bool {
+			call, ok := x.(*ast.CallExpr)
+			if !ok {
+				return false
+			}
+			se, ok := call.Fun.(*ast.SelectorExpr)
+			return ok && (se.Sel.Name == "Signal" || se.Sel.Name == "Broadcast")
+		})
+	}
+	hit, reached := g.reach(g.entry(), isSet, isWake, false, nil)
+	c.Check(!reached, "R10.10", "runtime.selectOp.notify sets sem before signalling", fd.Pos(), "sem = true on every path to Signal", "the condition variable is signalled ("+c.posStr(posOf(hit))+") before sem is set: a select that has tested sem and is about to wait misses the wake-up and sleeps although its channel is ready")
+}
+
+func init() {
+	addMutant(Mutant{Prop: "C10", Name: "notify-signal-before-flag", File: "runtime/internal/runtime/z_chan.go",
+		Old: "\tp.mutex.Lock()\n\tp.sem = true\n\tp.mutex.Unlock()\n\tp.cond.Signal()", New: "\tp.cond.Signal()\n\tp.mutex.Lock()\n\tp.sem = true\n\tp.mutex.Unlock()", Expect: "R10.10"})
+}
